@@ -275,9 +275,23 @@ class Verdict:
         # native replay of refutations
         lines = []
         confirmed = 0
+        # replay a bounded number of refutations (distinct obligation names first); the others keep
+        # their replay file and are listed in the evidence as not replayed
+        order, seen_names = [], set()
         for v in self.violations:
+            nm = (v[1].get("name"), (v[0] or {}).get("opcode") if isinstance(v[0], dict) else None)
+            if nm not in seen_names:
+                seen_names.add(nm)
+                order.append(v)
+        order += [v for v in self.violations if v not in order]
+        budget = int(os.environ.get("VERIF_MAX_REPLAYS", "16"))
+        t_replay = time.time()
+        for n, v in enumerate(order):
             unit, ob, _, _ = v
             path = write_replay(prop, unit, ob)
+            if n >= budget or time.time() - t_replay > 900:
+                v[2], v[3] = path, "not-replayed"
+                continue
             status, text = native_replay(prop, path) if ob.get("model") is not None else ("no-input", "")
             v[2], v[3] = path, status
             if status == "violates":
